@@ -331,6 +331,7 @@ def process_ir(ir, stop_before_step):
         dependency_checker.find_dependency_cycles,
         dependency_checker.set_dependency_order,
         symbol_resolver.resolve_field_references,
+        dependency_checker.find_dependency_cycles_through_members,
         type_check.annotate_types,
         type_check.check_types,
         constraints.check_early_constraints,
